@@ -16,24 +16,84 @@
 // -fno-access-control and compared with the model's live records (emitter side as a sequence: it is the invocation order; listener side as a multiset).
 // During emissions the same walk runs in a relaxed, implementation-aware form only to *attribute* a later verdict to the API call after which the
 // structures first diverged (it never produces a verdict itself).
-// modes: programs (random programs, replay: --start <idx> --cases 1; --start -1 replays the three scripted regression scenarios),
-//        exhMN (every program of the small-scope space 2*8^M*10^N, see exhaustivePrograms), --probe <key> for the two confirmed defects.
+// Arities: Callback.hpp has nine separate copies of emit() (0..8 arguments, each with its own slot-iteration loop) and nine connect()/disconnect()
+// templates. The harness emitter class has nine signals sig0..sig8 and the listener class two slots per arity (a0/b0 .. a8/b8, bK virtual). The model keeps
+// two signal *indexes* per emitter object; which of the nine signals stands behind index 0 and 1 is drawn per emitter object (two distinct arities from
+// 0..8; recreated emitters draw again), so one program mixes arities across emitters and the same signal key lives on several emitters. An emission with
+// sequence number q passes the value q*16+p as argument p (types by position: Elem, long, int, Elem, u64, double, const Elem&, const long*); every slot
+// compares every argument it received. Per-arity observation counters are kept locally and flushed at the end (emit/connect/disconnect/invoked/... _arity_K).
+// modes: programs (random programs, replay: --start <idx> --cases 1; --start -1 replays the scripted regression scenarios, each for every arity),
+//        exhMN (every program of the small-scope space 2*8^M*10^N on the 0-argument signal, see exhaustivePrograms),
+//        exhMNx (the same space for each of the nine arities: case index = program*9 + arity), --probe <key> for the two confirmed defects.
 #include "vh.hpp"
 #include <nstd/Callback.hpp>
 
 using namespace vh;
 
 // ------------------------------------------------------------------------------------------------ harness classes
-static void onSlot(void* self, int sig, int which, long arg);
+enum { NAR = 9 };   // arities 0..8
+static void onSlot(void* self, int arity, int which, const long* vals);
+static inline long argVal(long seq, int p) { return seq * 16 + p; }   // value of argument p of the emission with sequence number seq
+static inline long useElem(const Elem& a) { ElemReg::onUse(&a, a.id, "slot-argument"); return a.id; }
+
+// argument types by position; TLk = type list, PLk = parameter list, VLk = the received values as longs, ALk = the actual arguments of an emission,
+// DLk = the locals an emission of arity k needs (tracked Elems are only constructed for the arities that pass them)
+#define TL0
+#define TL1 Elem
+#define TL2 TL1, long
+#define TL3 TL2, int
+#define TL4 TL3, Elem
+#define TL5 TL4, u64
+#define TL6 TL5, double
+#define TL7 TL6, const Elem&
+#define TL8 TL7, const long*
+#define PL0
+#define PL1 Elem p0
+#define PL2 PL1, long p1
+#define PL3 PL2, int p2
+#define PL4 PL3, Elem p3
+#define PL5 PL4, u64 p4
+#define PL6 PL5, double p5
+#define PL7 PL6, const Elem& p6
+#define PL8 PL7, const long* p7
+#define VL0 0
+#define VL1 useElem(p0)
+#define VL2 VL1, p1
+#define VL3 VL2, (long)p2
+#define VL4 VL3, useElem(p3)
+#define VL5 VL4, (long)p4
+#define VL6 VL5, (long)p5
+#define VL7 VL6, useElem(p6)
+#define VL8 VL7, *p7
+#define AL1 e0
+#define AL2 AL1, argVal(seq, 1)
+#define AL3 AL2, (int)argVal(seq, 2)
+#define AL4 AL3, e3
+#define AL5 AL4, (u64)argVal(seq, 4)
+#define AL6 AL5, (double)argVal(seq, 5)
+#define AL7 AL6, e6
+#define AL8 AL7, &m7
+#define DL1 Elem e0(argVal(seq, 0));
+#define DL2 DL1
+#define DL3 DL1
+#define DL4 DL1 Elem e3(argVal(seq, 3));
+#define DL5 DL4
+#define DL6 DL4
+#define DL7 DL4 Elem e6(argVal(seq, 6));
+#define DL8 DL7 long m7 = argVal(seq, 7);
+#define FOR_ARITIES_1_8(X) X(1) X(2) X(3) X(4) X(5) X(6) X(7) X(8)
+#define FOR_ARITIES(X) X(0) FOR_ARITIES_1_8(X)
 
 // deliberately not polymorphic: Emitter::emit calls slots through ((X*)object)->*ptr with X = the *emitter* class (type erasure by cast), see report
 struct Em : Callback::Emitter {
   long tag;
   explicit Em(long t) : tag(t) {}
-  void fire0() { emit(&Em::sig0); }
-  void fire1(const Elem& a) { emit<Em, Elem>(&Em::sig1, a); }
+  // fireK never touches *this after emit returns: the emitter may have been deleted by a slot (the argument locals live in fireK's own frame)
   void sig0() {}
-  void sig1(Elem) {}
+  void fire0(long) { emit<Em>(&Em::sig0); }
+#define EM_MEMBERS(K) void sig##K(TL##K) {} void fire##K(long seq) { DL##K emit<Em, TL##K>(&Em::sig##K, AL##K); }
+  FOR_ARITIES_1_8(EM_MEMBERS)
+#undef EM_MEMBERS
 };
 
 // Listener is the second base: the Listener* (receiver) and the object pointer differ
@@ -42,27 +102,80 @@ struct Li : Pad, Callback::Listener {
   long tag;
   explicit Li(long t) : tag(t) {}
   // slots never touch *this: the listener may be deleted by a nested action while its slot is still running
-  void a0() { onSlot(this, 0, 0, -1); }
-  virtual void b0() { onSlot(this, 0, 1, -1); }
-  void a1(Elem a) { ElemReg::onUse(&a, a.id, "slot-argument"); onSlot(this, 1, 0, a.id); }
-  virtual void b1(Elem a) { ElemReg::onUse(&a, a.id, "slot-argument"); onSlot(this, 1, 1, a.id); }
+#define LI_SLOTS(K) void a##K(PL##K) { long v[8] = { VL##K }; onSlot(this, K, 0, v); } virtual void b##K(PL##K) { long v[8] = { VL##K }; onSlot(this, K, 1, v); }
+  FOR_ARITIES(LI_SLOTS)
+#undef LI_SLOTS
 };
 
-static const char* const SIGN[2] = { "sig0", "sig1" };
-static const char* const SLOTN[2][2] = { { "a0", "b0" }, { "a1", "b1" } };
+#define NAMES(K) "sig" #K,
+static const char* const SIGN9[NAR] = { FOR_ARITIES(NAMES) };
+#undef NAMES
+#define NAMES(K) { "a" #K, "b" #K },
+static const char* const SLOTN9[NAR][2] = { FOR_ARITIES(NAMES) };
+#undef NAMES
 
-static Callback::MemberFuncPtr sigKey(int sig) { return sig == 0 ? Callback::MemberFuncPtr(&Em::sig0) : Callback::MemberFuncPtr(&Em::sig1); }
-static Callback::MemberFuncPtr slotKey(int sig, int which) {
-  if (sig == 0) return which == 0 ? Callback::MemberFuncPtr(&Li::a0) : Callback::MemberFuncPtr(&Li::b0);
-  return which == 0 ? Callback::MemberFuncPtr(&Li::a1) : Callback::MemberFuncPtr(&Li::b1);
+static Callback::MemberFuncPtr sigKey(int k) {
+  switch (k) {
+#define CASE(K) case K: return Callback::MemberFuncPtr(&Em::sig##K);
+  FOR_ARITIES(CASE)
+#undef CASE
+  }
+  harnessBug("sigKey: arity %d", k);
 }
-static void realConnect(Em* e, int sig, Li* l, int which) {
-  if (sig == 0) { if (which == 0) Callback::connect(e, &Em::sig0, l, &Li::a0); else Callback::connect(e, &Em::sig0, l, &Li::b0); }
-  else { if (which == 0) Callback::connect(e, &Em::sig1, l, &Li::a1); else Callback::connect(e, &Em::sig1, l, &Li::b1); }
+static Callback::MemberFuncPtr slotKey(int k, int which) {
+  switch (k) {
+#define CASE(K) case K: return which == 0 ? Callback::MemberFuncPtr(&Li::a##K) : Callback::MemberFuncPtr(&Li::b##K);
+  FOR_ARITIES(CASE)
+#undef CASE
+  }
+  harnessBug("slotKey: arity %d", k);
 }
-static void realDisconnect(Em* e, int sig, Li* l, int which) {
-  if (sig == 0) { if (which == 0) Callback::disconnect(e, &Em::sig0, l, &Li::a0); else Callback::disconnect(e, &Em::sig0, l, &Li::b0); }
-  else { if (which == 0) Callback::disconnect(e, &Em::sig1, l, &Li::a1); else Callback::disconnect(e, &Em::sig1, l, &Li::b1); }
+static void realConnect(Em* e, int k, Li* l, int which) {
+  switch (k) {
+#define CASE(K) case K: if (which == 0) Callback::connect(e, &Em::sig##K, l, &Li::a##K); else Callback::connect(e, &Em::sig##K, l, &Li::b##K); return;
+  FOR_ARITIES(CASE)
+#undef CASE
+  }
+  harnessBug("realConnect: arity %d", k);
+}
+static void realDisconnect(Em* e, int k, Li* l, int which) {
+  switch (k) {
+#define CASE(K) case K: if (which == 0) Callback::disconnect(e, &Em::sig##K, l, &Li::a##K); else Callback::disconnect(e, &Em::sig##K, l, &Li::b##K); return;
+  FOR_ARITIES(CASE)
+#undef CASE
+  }
+  harnessBug("realDisconnect: arity %d", k);
+}
+static void realEmit(Em* e, int k, long seq) {
+  switch (k) {
+#define CASE(K) case K: e->fire##K(seq); return;
+  FOR_ARITIES(CASE)
+#undef CASE
+  }
+  harnessBug("realEmit: arity %d", k);
+}
+// the model identifies signals and slots by their keys: all of them must be pairwise distinct
+static void checkKeysDistinct() {
+  for (int a = 0; a < NAR; ++a) for (int b = a + 1; b < NAR; ++b) if (sigKey(a) == sigKey(b)) harnessBug("signal keys of sig%d and sig%d coincide", a, b);
+  for (int a = 0; a < 2 * NAR; ++a) for (int b = a + 1; b < 2 * NAR; ++b) if (slotKey(a / 2, a % 2) == slotKey(b / 2, b % 2)) harnessBug("slot keys %s and %s coincide", SLOTN9[a / 2][a % 2], SLOTN9[b / 2][b % 2]);
+}
+
+// per-arity observations (kept locally: vh::cnt is a linear search; flushed by flushArityStats)
+enum ArEv { AE_EMIT = 0, AE_EMIT_RECURSIVE, AE_CONNECT, AE_CONNECT_SIGNAL_EMITTING, AE_DISCONNECT, AE_DISCONNECT_SIGNAL_EMITTING, AE_INVOKED, AE_ARGUMENTS_COMPARED,
+            AE_PASSED_OVER, AE_PENDING_DROPPED, AE_ENDED_BY_EMITTER_DESTRUCTION, NAE };
+static const char* const AEN[NAE] = { "emit", "emit_recursive", "connect", "connect_signal_emitting", "disconnect", "disconnect_signal_emitting", "invoked", "arguments_compared",
+                                      "passed_over_connected_during_emission", "pending_slot_dropped_before_its_turn", "emission_ended_by_emitter_destruction" };
+static long g_ar[NAR][NAE];
+static inline void arEv(int k, int ev, long n = 1) { g_ar[k][ev] += n; }
+static void flushArityStats() {
+  for (int k = 0; k < NAR; ++k) for (int ev = 0; ev < NAE; ++ev) {
+    if (!g_ar[k][ev]) continue;
+    char nm[96]; snprintf(nm, sizeof nm, "%s_arity_%d", AEN[ev], k); cnt(nm, g_ar[k][ev]);
+    char it[96]; snprintf(it, sizeof it, "%d", k);
+    if (ev == AE_EMIT) setItem("emit_arities", it); else if (ev == AE_CONNECT) setItem("connect_arities", it); else if (ev == AE_DISCONNECT) setItem("disconnect_arities", it);
+    snprintf(it, sizeof it, "%d/%s", k, AEN[ev]); setItem("arity_event", it);
+    g_ar[k][ev] = 0;
+  }
 }
 
 // ------------------------------------------------------------------------------------------------ model
@@ -70,7 +183,9 @@ enum { MAXE = 3, MAXL = 4 };
 enum Why { W_LIVE = 0, W_DISC_QUIESCENT, W_DISC_EMITTING, W_LISTENER_DESTROYED, W_EMITTER_DESTROYED };
 struct LiM { int idx; long gen; Li* obj; bool live; };
 struct Rec { LiM* l; int which; u64 serial; bool live; int why; u64 diedAt; };
-struct EmM { int idx; long gen; Em* obj; bool live; int depth[2]; u64 outerStart[2]; Vec<Rec> recs[2]; };
+struct EmM { int idx; long gen; Em* obj; bool live; int ar[2]; int depth[2]; u64 outerStart[2]; Vec<Rec> recs[2]; };   // ar[s] = arity (= which of sig0..sig8) behind signal index s
+#define SN(e, sig) SIGN9[(e)->ar[sig]]
+#define LN(e, sig, which) SLOTN9[(e)->ar[sig]][which]
 struct Frame { EmM* e; int sig; size_t pos; long arg; long invoked; u64 startClock; };
 struct SlotCtx { EmM* e; int sig; LiM* l; int which; };
 
@@ -90,6 +205,7 @@ struct G {
   int maxDepth, nestNum, nestDen; long slotBudget;
   u64 fp; long invocations, nestedActions, maxDepthSeen;
   void (*script)(const SlotCtx&);
+  int fixedAr;   // >= 0: every emitter gets this arity behind signal index 0 (exhaustive programs, scripted scenarios); -1: drawn per emitter object
   char suspectCtx[128]; char suspectMsg[256]; bool suspect;
   const char* topAction;
 };
@@ -131,9 +247,9 @@ static void noteSkipped(const Frame& F, size_t from, size_t to) {
   const Vec<Rec>& v = F.e->recs[F.sig];
   for (size_t p = from; p < to && p < v.n; ++p) {
     const Rec& rc = v[p];
-    if (rc.live) { if (rc.serial >= F.e->outerStart[F.sig]) cnt("passed_over_connected_during_emission"); }
+    if (rc.live) { if (rc.serial >= F.e->outerStart[F.sig]) { cnt("passed_over_connected_during_emission"); arEv(F.e->ar[F.sig], AE_PASSED_OVER); } }
     else if (rc.serial < F.e->outerStart[F.sig] && rc.diedAt > F.startClock) {
-      cnt("pending_slot_dropped_before_its_turn");
+      cnt("pending_slot_dropped_before_its_turn"); arEv(F.e->ar[F.sig], AE_PENDING_DROPPED);
       if (rc.why == W_LISTENER_DESTROYED) cnt("pending_slot_dropped_listener_destroyed");
     }
   }
@@ -150,21 +266,21 @@ static const char* walkEmitter(EmM* e, bool strict, char* msg, size_t msgsz) {
   long guard = 0;
   for (Map<Callback::MemberFuncPtr, Callback::Emitter::SignalData>::Iterator it = ce.signalData.begin(); it != ce.signalData.end(); ++it) {
     if (++guard > 64) { snprintf(msg, msgsz, "E%d: signalData has more than 64 entries (cycle?)", e->idx); return "emitter-side-map-corrupt"; }
-    int sig = it.key() == sigKey(0) ? 0 : it.key() == sigKey(1) ? 1 : -1;
+    int sig = it.key() == sigKey(e->ar[0]) ? 0 : it.key() == sigKey(e->ar[1]) ? 1 : -1;
     if (sig < 0 || seen[sig]) { snprintf(msg, msgsz, "E%d: signalData has an entry for an unknown or repeated signal key", e->idx); return "emitter-side-unknown-signal"; }
     seen[sig] = true;
     Callback::Emitter::SignalData& d = *it;
     if (strict) {
-      if (d.activation) { snprintf(msg, msgsz, "E%d.%s: activation chain not empty although no emission is in progress", e->idx, SIGN[sig]); return "emitter-side-activation-left"; }
-      if (d.dirty) { snprintf(msg, msgsz, "E%d.%s: dirty flag still set although no emission is in progress", e->idx, SIGN[sig]); return "emitter-side-dirty-left"; }
+      if (d.activation) { snprintf(msg, msgsz, "E%d.%s: activation chain not empty although no emission is in progress", e->idx, SN(e, sig)); return "emitter-side-activation-left"; }
+      if (d.dirty) { snprintf(msg, msgsz, "E%d.%s: dirty flag still set although no emission is in progress", e->idx, SN(e, sig)); return "emitter-side-dirty-left"; }
     }
     const Vec<Rec>& v = e->recs[sig];
     size_t mp = 0; long n = 0, walked = 0;
     for (List<Callback::Emitter::Slot>::Iterator s = d.slots.begin(); s != d.slots.end(); ++s) {
-      if (++walked > 100000) { snprintf(msg, msgsz, "E%d.%s: slot list does not end (cycle)", e->idx, SIGN[sig]); return "emitter-side-list-corrupt"; }
+      if (++walked > 100000) { snprintf(msg, msgsz, "E%d.%s: slot list does not end (cycle)", e->idx, SN(e, sig)); return "emitter-side-list-corrupt"; }
       int st = (int)s->state;
       if (strict && st != (int)Callback::Emitter::Slot::connected) {
-        snprintf(msg, msgsz, "E%d.%s: record #%ld is in state %s although no emission is in progress", e->idx, SIGN[sig], walked - 1, st == (int)Callback::Emitter::Slot::connecting ? "connecting" : "disconnected");
+        snprintf(msg, msgsz, "E%d.%s: record #%ld is in state %s although no emission is in progress", e->idx, SN(e, sig), walked - 1, st == (int)Callback::Emitter::Slot::connecting ? "connecting" : "disconnected");
         return st == (int)Callback::Emitter::Slot::connecting ? "emitter-side-leftover-connecting-record" : "emitter-side-leftover-disconnected-record";
       }
       if (!strict && st == (int)Callback::Emitter::Slot::disconnected) continue;
@@ -172,30 +288,30 @@ static const char* walkEmitter(EmM* e, bool strict, char* msg, size_t msgsz) {
       ++g_recordsCompared;
       if (mp == v.n) {
         LiM* who = 0; for (int i = 0; i < g.NL; ++i) if (g.li[i] && g.li[i]->live && (Callback::Listener*)g.li[i]->obj == s->receiver) who = g.li[i];
-        int wh = s->slot == slotKey(sig, 0) ? 0 : s->slot == slotKey(sig, 1) ? 1 : -1;
-        snprintf(msg, msgsz, "E%d.%s: emitter side holds a connected record (listener %s%d, slot %s) beyond the %ld live connection(s) of the model", e->idx, SIGN[sig],
-                 who ? "L" : "<destroyed or unknown> #", who ? who->idx : -1, wh >= 0 ? SLOTN[sig][wh] : "?", n);
+        int wh = s->slot == slotKey(e->ar[sig], 0) ? 0 : s->slot == slotKey(e->ar[sig], 1) ? 1 : -1;
+        snprintf(msg, msgsz, "E%d.%s: emitter side holds a connected record (listener %s%d, slot %s) beyond the %ld live connection(s) of the model", e->idx, SN(e, sig),
+                 who ? "L" : "<destroyed or unknown> #", who ? who->idx : -1, wh >= 0 ? LN(e, sig, wh) : "?", n);
         return "emitter-side-stale-record";
       }
       const Rec& rc = v[mp];
-      bool same = s->receiver == (Callback::Listener*)rc.l->obj && s->object == (void*)rc.l->obj && s->slot == slotKey(sig, rc.which);
+      bool same = s->receiver == (Callback::Listener*)rc.l->obj && s->object == (void*)rc.l->obj && s->slot == slotKey(e->ar[sig], rc.which);
       if (!same) {
         // is the library's record some *other* live connection of the model (order / wrong victim) or nothing the model knows (stale)?
-        bool known = false; for (size_t q = 0; q < v.n; ++q) if (v[q].live && s->receiver == (Callback::Listener*)v[q].l->obj && s->slot == slotKey(sig, v[q].which)) known = true;
-        snprintf(msg, msgsz, "E%d.%s: live record #%ld differs: model expects L%d.%s", e->idx, SIGN[sig], n, rc.l->idx, SLOTN[sig][rc.which]);
+        bool known = false; for (size_t q = 0; q < v.n; ++q) if (v[q].live && s->receiver == (Callback::Listener*)v[q].l->obj && s->slot == slotKey(e->ar[sig], v[q].which)) known = true;
+        snprintf(msg, msgsz, "E%d.%s: live record #%ld differs: model expects L%d.%s", e->idx, SN(e, sig), n, rc.l->idx, LN(e, sig, rc.which));
         return known ? "emitter-side-record-order" : "emitter-side-stale-record";
       }
       if (!strict) {
         bool wantConnecting = e->depth[sig] > 0 && rc.serial >= e->outerStart[sig];
-        if ((st == (int)Callback::Emitter::Slot::connecting) != wantConnecting) { snprintf(msg, msgsz, "E%d.%s: record #%ld state %d, expected %s", e->idx, SIGN[sig], n, st, wantConnecting ? "connecting" : "connected"); return "emitter-side-record-state"; }
+        if ((st == (int)Callback::Emitter::Slot::connecting) != wantConnecting) { snprintf(msg, msgsz, "E%d.%s: record #%ld state %d, expected %s", e->idx, SN(e, sig), n, st, wantConnecting ? "connecting" : "connected"); return "emitter-side-record-state"; }
       }
       ++mp; ++n;
     }
-    if (strict && (long)d.slots.size() != walked) { snprintf(msg, msgsz, "E%d.%s: List size %ld but %ld items linked", e->idx, SIGN[sig], (long)d.slots.size(), walked); return "emitter-side-list-corrupt"; }
+    if (strict && (long)d.slots.size() != walked) { snprintf(msg, msgsz, "E%d.%s: List size %ld but %ld items linked", e->idx, SN(e, sig), (long)d.slots.size(), walked); return "emitter-side-list-corrupt"; }
     while (mp < v.n && !v[mp].live) ++mp;
-    if (mp != v.n) { snprintf(msg, msgsz, "E%d.%s: live connection to L%d.%s has no record on the emitter side (%ld found)", e->idx, SIGN[sig], v[mp].l->idx, SLOTN[sig][v[mp].which], n); return "emitter-side-missing-record"; }
+    if (mp != v.n) { snprintf(msg, msgsz, "E%d.%s: live connection to L%d.%s has no record on the emitter side (%ld found)", e->idx, SN(e, sig), v[mp].l->idx, LN(e, sig, v[mp].which), n); return "emitter-side-missing-record"; }
   }
-  for (int sig = 0; sig < 2; ++sig) if (!seen[sig] && liveCount(e, sig)) { snprintf(msg, msgsz, "E%d.%s: %ld live connection(s) but no signalData entry", e->idx, SIGN[sig], (long)liveCount(e, sig)); return "emitter-side-missing-record"; }
+  for (int sig = 0; sig < 2; ++sig) if (!seen[sig] && liveCount(e, sig)) { snprintf(msg, msgsz, "E%d.%s: %ld live connection(s) but no signalData entry", e->idx, SN(e, sig), (long)liveCount(e, sig)); return "emitter-side-missing-record"; }
   return 0;
 }
 
@@ -212,8 +328,8 @@ static const char* walkListener(LiM* l, char* msg, size_t msgsz) {
       if (++walked > 100000) { snprintf(msg, msgsz, "L%d: signal list does not end (cycle)", l->idx); return "listener-side-list-corrupt"; }
       ++g_recordsCompared;
       if (!e) { snprintf(msg, msgsz, "L%d: listener side still lists a connection to an emitter that was destroyed", l->idx); return "listener-side-record-for-destroyed-emitter"; }
-      int sig = s->signal == sigKey(0) ? 0 : s->signal == sigKey(1) ? 1 : -1;
-      int wh = sig < 0 ? -1 : s->slot == slotKey(sig, 0) ? 0 : s->slot == slotKey(sig, 1) ? 1 : -1;
+      int sig = s->signal == sigKey(e->ar[0]) ? 0 : s->signal == sigKey(e->ar[1]) ? 1 : -1;
+      int wh = sig < 0 ? -1 : s->slot == slotKey(e->ar[sig], 0) ? 0 : s->slot == slotKey(e->ar[sig], 1) ? 1 : -1;
       if (wh < 0) { snprintf(msg, msgsz, "L%d: listener side lists an unknown (signal, slot) pair for E%d", l->idx, e->idx); return "listener-side-unknown-pair"; }
       ++have[sig][wh];
     }
@@ -222,13 +338,13 @@ static const char* walkListener(LiM* l, char* msg, size_t msgsz) {
     seenE[e->idx] = true;
     for (int sig = 0; sig < 2; ++sig) for (int wh = 0; wh < 2; ++wh) {
       long want = 0; const Vec<Rec>& v = e->recs[sig]; for (size_t q = 0; q < v.n; ++q) if (v[q].live && v[q].l == l && v[q].which == wh) ++want;
-      if (have[sig][wh] > want) { snprintf(msg, msgsz, "L%d: listener side lists %ld connection(s) E%d.%s -> %s, model has %ld live", l->idx, have[sig][wh], e->idx, SIGN[sig], SLOTN[sig][wh], want); return "listener-side-stale-record"; }
-      if (have[sig][wh] < want) { snprintf(msg, msgsz, "L%d: listener side lists %ld connection(s) E%d.%s -> %s, model has %ld live", l->idx, have[sig][wh], e->idx, SIGN[sig], SLOTN[sig][wh], want); return "listener-side-missing-record"; }
+      if (have[sig][wh] > want) { snprintf(msg, msgsz, "L%d: listener side lists %ld connection(s) E%d.%s -> %s, model has %ld live", l->idx, have[sig][wh], e->idx, SN(e, sig), LN(e, sig, wh), want); return "listener-side-stale-record"; }
+      if (have[sig][wh] < want) { snprintf(msg, msgsz, "L%d: listener side lists %ld connection(s) E%d.%s -> %s, model has %ld live", l->idx, have[sig][wh], e->idx, SN(e, sig), LN(e, sig, wh), want); return "listener-side-missing-record"; }
     }
   }
   for (int i = 0; i < g.NE; ++i) {
     EmM* e = g.em[i]; if (!e || !e->live || seenE[e->idx]) continue;
-    for (int sig = 0; sig < 2; ++sig) { const Vec<Rec>& v = e->recs[sig]; for (size_t q = 0; q < v.n; ++q) if (v[q].live && v[q].l == l) { snprintf(msg, msgsz, "L%d: live connection E%d.%s -> %s but no slotData entry for that emitter", l->idx, e->idx, SIGN[sig], SLOTN[sig][v[q].which]); return "listener-side-missing-record"; } }
+    for (int sig = 0; sig < 2; ++sig) { const Vec<Rec>& v = e->recs[sig]; for (size_t q = 0; q < v.n; ++q) if (v[q].live && v[q].l == l) { snprintf(msg, msgsz, "L%d: live connection E%d.%s -> %s but no slotData entry for that emitter", l->idx, e->idx, SN(e, sig), LN(e, sig, v[q].which)); return "listener-side-missing-record"; } }
   }
   return 0;
 }
@@ -274,11 +390,12 @@ static void actConnect(EmM* e, int sig, LiM* l, int which) {
   const char* cls = connClass(e, sig);
   setctxf("Callback.connect/%s", cls);
   size_t dup = 0; for (size_t q = 0; q < e->recs[sig].n; ++q) { const Rec& rc = e->recs[sig][q]; if (rc.live && rc.l == l && rc.which == which) ++dup; }
-  histf("connect(E%d.%s -> L%d.%s)%s", e->idx, SIGN[sig], l->idx, SLOTN[sig][which], dup ? "   # duplicate" : "");
+  histf("connect(E%d.%s -> L%d.%s)%s", e->idx, SN(e, sig), l->idx, LN(e, sig, which), dup ? "   # duplicate" : "");
   Rec rc; rc.l = l; rc.which = which; rc.serial = g.serial++; rc.live = true; rc.why = W_LIVE; rc.diedAt = 0;
   e->recs[sig].push(rc);
   ++g.clock;
-  realConnect(e->obj, sig, l->obj, which);
+  realConnect(e->obj, e->ar[sig], l->obj, which);
+  arEv(e->ar[sig], AE_CONNECT); if (e->depth[sig] > 0) arEv(e->ar[sig], AE_CONNECT_SIGNAL_EMITTING);
   cnt("op_connect"); if (dup) cnt("op_connect_duplicate"); if (g.frames.n) cnt(e->depth[sig] > 0 ? "op_connect_signal_emitting" : "op_connect_in_slot");
   statMax("max_duplicate_multiplicity", (long)dup + 1);
   g.fp = mix(g.fp, 11 + (u64)e->idx * 7 + (u64)sig * 3 + (u64)l->idx * 31 + (u64)which + (u64)depthNow() * 1000);
@@ -293,10 +410,11 @@ static void actDisconnect(EmM* e, int sig, LiM* l, int which) {
   for (size_t q = 0; q < v.n; ++q) if (v[q].l == l && v[q].which == which) { if (v[q].live) { if (hit == NPOS) hit = q; ++dups; } else if (hit == NPOS) deadBefore = true; }
   // trigger condition of the (listed) finding: a disconnected record of the same slot, still pending physical removal, precedes the live one
   if (hit != NPOS && deadBefore && excluded(KEY_DISC)) { cnt("excluded_trigger_avoided"); return; }
-  histf("disconnect(E%d.%s -> L%d.%s)%s", e->idx, SIGN[sig], l->idx, SLOTN[sig][which], hit == NPOS ? "   # not connected" : "");
+  histf("disconnect(E%d.%s -> L%d.%s)%s", e->idx, SN(e, sig), l->idx, LN(e, sig, which), hit == NPOS ? "   # not connected" : "");
   ++g.clock;
   if (hit != NPOS) { v[hit].live = false; v[hit].why = g.frames.n && e->depth[sig] > 0 ? W_DISC_EMITTING : W_DISC_QUIESCENT; v[hit].diedAt = g.clock; }
-  realDisconnect(e->obj, sig, l->obj, which);
+  realDisconnect(e->obj, e->ar[sig], l->obj, which);
+  arEv(e->ar[sig], AE_DISCONNECT); if (e->depth[sig] > 0) arEv(e->ar[sig], AE_DISCONNECT_SIGNAL_EMITTING);
   if (hit != NPOS && e->depth[sig] == 0) v.removeAt(hit);
   cnt("op_disconnect"); if (hit == NPOS) cnt("op_disconnect_not_connected"); if (dups > 1) cnt("op_disconnect_one_of_duplicates");
   if (g.frames.n) cnt(e->depth[sig] > 0 ? "op_disconnect_signal_emitting" : "op_disconnect_in_slot");
@@ -311,7 +429,7 @@ static void actEmit(EmM* e, int sig) {
   char myctx[64]; snprintf(myctx, sizeof myctx, "Emitter.emit/%s", cls);
   setctxf("%s", myctx);
   long arg = ++g.argSeq;
-  histf("emit(E%d.%s) {%s", e->idx, SIGN[sig], e->depth[sig] > 0 ? "   # recursive" : "");
+  histf("emit(E%d.%s) {%s", e->idx, SN(e, sig), e->depth[sig] > 0 ? "   # recursive" : "");
   if (e->depth[sig] == 0) e->outerStart[sig] = g.serial;
   ++e->depth[sig]; ++g.clock;
   Frame f; f.e = e; f.sig = sig; f.pos = 0; f.arg = arg; f.invoked = 0; f.startClock = g.clock;
@@ -320,7 +438,8 @@ static void actEmit(EmM* e, int sig) {
   cnt("op_emit"); if (fi) cnt("op_emit_nested"); if (e->depth[sig] > 1) cnt("op_emit_recursive_same_signal");
   g.fp = mix(g.fp, 13 + (u64)e->idx * 7 + (u64)sig * 3 + (u64)depthNow() * 1000);
   Em* obj = e->obj;
-  if (sig == 0) obj->fire0(); else { Elem a(arg); obj->fire1(a); }
+  arEv(e->ar[sig], AE_EMIT); if (e->depth[sig] > 1) arEv(e->ar[sig], AE_EMIT_RECURSIVE);
+  realEmit(obj, e->ar[sig], arg);
   // obj may be deleted by now; only the model is consulted
   setctxf("%s", myctx);
   if (g.frames.n != fi + 1) harnessBug("frame stack unbalanced after emit");
@@ -330,11 +449,11 @@ static void actEmit(EmM* e, int sig) {
     if (p != NPOS) {
       const Rec& rc = e->recs[sig][p];
       fail("Emitter.emit/connected-slot/not-invoked", "emission of E%d.%s returned after %ld invocation(s) without invoking L%d.%s, which was connected before the outermost emission began and is still connected%s%s",
-           e->idx, SIGN[sig], F.invoked, rc.l->idx, SLOTN[sig][rc.which], g.suspect ? "; structures first diverged right after " : "", g.suspect ? g.suspectCtx : "");
+           e->idx, SN(e, sig), F.invoked, rc.l->idx, LN(e, sig, rc.which), g.suspect ? "; structures first diverged right after " : "", g.suspect ? g.suspectCtx : "");
     }
     noteSkipped(F, F.pos, e->recs[sig].n);
     if (--e->depth[sig] == 0) { Vec<Rec>& v = e->recs[sig]; size_t k = 0; for (size_t q = 0; q < v.n; ++q) if (v[q].live) { if (k != q) v[k] = v[q]; ++k; } while (v.n > k) v.pop(); }
-  } else cnt("emission_ended_by_emitter_destruction");
+  } else { cnt("emission_ended_by_emitter_destruction"); arEv(e->ar[sig], AE_ENDED_BY_EMITTER_DESTRUCTION); }
   statMax("max_invocations_in_one_emission", F.invoked);
   if (F.invoked == 0) cnt("emissions_without_invocation");
   g.frames.pop();
@@ -392,10 +511,14 @@ static void actCreateL(int idx) {
 static void actCreateE(int idx) {
   CtxScope cs;
   setctxf("Emitter.create/%s", g.frames.n == 0 ? "quiescent" : "in-slot");
-  histf("E%d = new emitter", idx);
-  EmM* e = new EmM; e->idx = idx; e->gen = ++g.gen; e->live = true; e->depth[0] = e->depth[1] = 0; e->outerStart[0] = e->outerStart[1] = 0; e->obj = new Em(e->gen);
+  EmM* e = new EmM; e->idx = idx; e->gen = ++g.gen; e->live = true; e->depth[0] = e->depth[1] = 0; e->outerStart[0] = e->outerStart[1] = 0;
+  // which of the nine signals stand behind this emitter object's two signal indexes
+  if (g.fixedAr >= 0) { e->ar[0] = g.fixedAr; e->ar[1] = (g.fixedAr + 1) % NAR; }
+  else { e->ar[0] = (int)g.r.below(NAR); e->ar[1] = (e->ar[0] + 1 + (int)g.r.below(NAR - 1)) % NAR; }
+  histf("E%d = new emitter   # signals %s, %s", idx, SN(e, 0), SN(e, 1));
+  e->obj = new Em(e->gen);
   g.allE.push(e); g.em[idx] = e; cnt("op_create_emitter");
-  g.fp = mix(g.fp, 17 + (u64)idx);
+  g.fp = mix(g.fp, 17 + (u64)idx + (u64)e->ar[0] * 100 + (u64)e->ar[1] * 1000);
   diagnose();
 }
 
@@ -465,17 +588,18 @@ static void randomAction(const SlotCtx* sc) {
 }
 
 // ------------------------------------------------------------------------------------------------ the slot monitor
-static void onSlot(void* self, int sig, int which, long arg) {
+static void onSlot(void* self, int arity, int which, const long* vals) {
   cnt("slot_invocations"); ++g.invocations;
-  if (g.frames.n == 0) fail("Emitter.emit/no-emission-in-progress/slot-invoked", "a slot (%s) was invoked while the harness is not inside any emit call", SLOTN[sig][which]);
+  if (g.frames.n == 0) fail("Emitter.emit/no-emission-in-progress/slot-invoked", "a slot (%s) was invoked while the harness is not inside any emit call", SLOTN9[arity][which]);
   size_t fi = g.frames.n - 1;
   EmM* e = g.frames[fi].e; int fsig = g.frames[fi].sig;
   LiM* l = liveListenerAt(self);
   const char* sus1 = g.suspect ? "; structures first diverged right after " : ""; const char* sus2 = g.suspect ? g.suspectCtx : "";
-  if (!e->live) fail("Emitter.emit/emitter-destroyed/slot-invoked", "slot %s invoked by the emission of E%d.%s after that emitter was destroyed%s%s", SLOTN[sig][which], e->idx, SIGN[fsig], sus1, sus2);
-  if (!l) fail("Emitter.emit/listener-destroyed/slot-invoked", "emission of E%d.%s invoked slot %s on an object that is not a live listener (destroyed earlier)%s%s", e->idx, SIGN[fsig], SLOTN[sig][which], sus1, sus2);
-  histf("-> L%d.%s", l->idx, SLOTN[sig][which]);
-  if (sig != fsig) fail("Emitter.emit/other-signal/slot-invoked", "emission of E%d.%s invoked L%d.%s, a slot of the other signal", e->idx, SIGN[fsig], l->idx, SLOTN[sig][which]);
+  if (!e->live) fail("Emitter.emit/emitter-destroyed/slot-invoked", "slot %s invoked by the emission of E%d.%s after that emitter was destroyed%s%s", SLOTN9[arity][which], e->idx, SN(e, fsig), sus1, sus2);
+  if (!l) fail("Emitter.emit/listener-destroyed/slot-invoked", "emission of E%d.%s invoked slot %s on an object that is not a live listener (destroyed earlier)%s%s", e->idx, SN(e, fsig), SLOTN9[arity][which], sus1, sus2);
+  histf("-> L%d.%s", l->idx, SLOTN9[arity][which]);
+  if (arity != e->ar[fsig]) fail("Emitter.emit/other-signal/slot-invoked", "emission of E%d.%s invoked L%d.%s, a slot of another signal", e->idx, SN(e, fsig), l->idx, SLOTN9[arity][which]);
+  int sig = fsig;
   Vec<Rec>& v = e->recs[sig];
   size_t p = nextExpected(g.frames[fi]);
   if (p == NPOS || v[p].l != l || v[p].which != which) {
@@ -485,16 +609,18 @@ static void onSlot(void* self, int sig, int which, long arg) {
       else if (v[q].live) liveYoung = true;
       else { deadInEmission = true; deadWhy = v[q].why; }
     }
-    char exp[64]; if (p == NPOS) snprintf(exp, sizeof exp, "the end of the emission"); else snprintf(exp, sizeof exp, "L%d.%s", v[p].l->idx, SLOTN[sig][v[p].which]);
-    if (laterEligible) fail("Emitter.emit/connected-slot/skipped", "emission of E%d.%s invoked L%d.%s but the model expects %s first (connected before the outermost emission began, still connected, not yet invoked)%s%s", e->idx, SIGN[sig], l->idx, SLOTN[sig][which], exp, sus1, sus2);
-    if (earlierEligible) fail("Emitter.emit/connected-slot/invoked-again", "emission of E%d.%s invoked L%d.%s out of turn (its connection was already served in this emission); the model expects %s%s%s", e->idx, SIGN[sig], l->idx, SLOTN[sig][which], exp, sus1, sus2);
-    if (liveYoung) fail("Emitter.emit/connected-during-emission/slot-invoked", "emission of E%d.%s invoked L%d.%s, which was connected only after the outermost emission of that signal still in progress began; the model expects %s%s%s", e->idx, SIGN[sig], l->idx, SLOTN[sig][which], exp, sus1, sus2);
-    if (deadInEmission) fail(deadWhy == W_DISC_EMITTING ? "Emitter.emit/disconnected-during-emission/slot-invoked" : "Emitter.emit/disconnected/slot-invoked", "emission of E%d.%s invoked L%d.%s after it was disconnected; the model expects %s%s%s", e->idx, SIGN[sig], l->idx, SLOTN[sig][which], exp, sus1, sus2);
-    fail("Emitter.emit/not-connected/slot-invoked", "emission of E%d.%s invoked L%d.%s, which has no live connection to that signal (disconnected earlier or never connected); the model expects %s%s%s", e->idx, SIGN[sig], l->idx, SLOTN[sig][which], exp, sus1, sus2);
+    char exp[64]; if (p == NPOS) snprintf(exp, sizeof exp, "the end of the emission"); else snprintf(exp, sizeof exp, "L%d.%s", v[p].l->idx, LN(e, sig, v[p].which));
+    if (laterEligible) fail("Emitter.emit/connected-slot/skipped", "emission of E%d.%s invoked L%d.%s but the model expects %s first (connected before the outermost emission began, still connected, not yet invoked)%s%s", e->idx, SN(e, sig), l->idx, LN(e, sig, which), exp, sus1, sus2);
+    if (earlierEligible) fail("Emitter.emit/connected-slot/invoked-again", "emission of E%d.%s invoked L%d.%s out of turn (its connection was already served in this emission); the model expects %s%s%s", e->idx, SN(e, sig), l->idx, LN(e, sig, which), exp, sus1, sus2);
+    if (liveYoung) fail("Emitter.emit/connected-during-emission/slot-invoked", "emission of E%d.%s invoked L%d.%s, which was connected only after the outermost emission of that signal still in progress began; the model expects %s%s%s", e->idx, SN(e, sig), l->idx, LN(e, sig, which), exp, sus1, sus2);
+    if (deadInEmission) fail(deadWhy == W_DISC_EMITTING ? "Emitter.emit/disconnected-during-emission/slot-invoked" : "Emitter.emit/disconnected/slot-invoked", "emission of E%d.%s invoked L%d.%s after it was disconnected; the model expects %s%s%s", e->idx, SN(e, sig), l->idx, LN(e, sig, which), exp, sus1, sus2);
+    fail("Emitter.emit/not-connected/slot-invoked", "emission of E%d.%s invoked L%d.%s, which has no live connection to that signal (disconnected earlier or never connected); the model expects %s%s%s", e->idx, SN(e, sig), l->idx, LN(e, sig, which), exp, sus1, sus2);
   }
   noteSkipped(g.frames[fi], g.frames[fi].pos, p);
   g.frames[fi].pos = p + 1; ++g.frames[fi].invoked;
-  if (sig == 1 && arg != g.frames[fi].arg) fail("Emitter.emit/argument/value", "slot L%d.%s received argument %ld, the emission passed %ld", l->idx, SLOTN[sig][which], arg, g.frames[fi].arg);
+  for (int a = 0; a < arity; ++a) if (vals[a] != argVal(g.frames[fi].arg, a))
+    fail("Emitter.emit/argument/value", "slot L%d.%s received %ld as argument #%d of %d, the emission passed %ld", l->idx, LN(e, sig, which), vals[a], a, arity, argVal(g.frames[fi].arg, a));
+  arEv(arity, AE_INVOKED); arEv(arity, AE_ARGUMENTS_COMPARED, arity);
   cnt("invocations_matched");
   // ---- nested actions, drawn from the same stream
   SlotCtx sc; sc.e = e; sc.sig = sig; sc.l = l; sc.which = which;
@@ -508,7 +634,7 @@ static void onSlot(void* self, int sig, int which, long arg) {
 static void resetCase() {
   for (int i = 0; i < MAXE; ++i) g.em[i] = 0;
   for (int i = 0; i < MAXL; ++i) g.li[i] = 0;
-  g.frames.clear(); g.serial = 1; g.clock = 1; g.gen = 0; g.argSeq = 1000; g.fp = 0; g.invocations = 0; g.nestedActions = 0; g.maxDepthSeen = 0; g.script = 0; g.suspect = false; g.topAction = "setup";
+  g.frames.clear(); g.serial = 1; g.clock = 1; g.gen = 0; g.argSeq = 1000; g.fp = 0; g.invocations = 0; g.nestedActions = 0; g.maxDepthSeen = 0; g.script = 0; g.fixedAr = -1; g.suspect = false; g.topAction = "setup";
   g.NE = 1; g.NL = 1; g.NS = 2; g.NW = 2; g.maxDepth = 4; g.nestNum = 0; g.nestDen = 1; g.slotBudget = 0;
   for (int i = 0; i < NKINDS; ++i) g.w[i] = 1;
   ElemReg::reset();
@@ -556,7 +682,7 @@ static void randomPrograms() {
     if (r.chance(1, 2)) { g.w[K_DESTROY_E] = (g.w[K_DESTROY_E] + 2) / 3; g.w[K_FOCUS_DESTROY_E] = (g.w[K_FOCUS_DESTROY_E] + 2) / 3; }
     if (g.w[K_DESTROY_L] + g.w[K_DESTROY_E] + g.w[K_FOCUS_DESTROY_L] + g.w[K_FOCUS_DESTROY_E] && !g.w[K_RECREATE]) g.w[K_RECREATE] = 2;
     int ntop = (int)r.range(6, r.chance(1, 6) ? 80 : 30);
-    hist.addf("# C12 random program: emitters=%d listeners=%d signals=%d slots/signal=%d maxdepth=%d nest=%d/%d budget=%ld top-level actions=%d\n# weights:", g.NE, g.NL, g.NS, g.NW, g.maxDepth, g.nestNum, g.nestDen, g.slotBudget, ntop);
+    hist.addf("# C12 random program: emitters=%d listeners=%d signals/emitter=%d (arities drawn per emitter object) slots/signal=%d maxdepth=%d nest=%d/%d budget=%ld top-level actions=%d\n# weights:", g.NE, g.NL, g.NS, g.NW, g.maxDepth, g.nestNum, g.nestDen, g.slotBudget, ntop);
     for (int i = 0; i < NKINDS; ++i) hist.addf(" %s=%d", KINDN[i], g.w[i]);
     hist.add("\n");
     top("setup");
@@ -588,7 +714,8 @@ static void randomPrograms() {
 // Universe: E0, L0, L1, one signal, one slot per listener. Program = prefix (variant 0: connect L0, L1; variant 1: connect L0, L0 again, L1),
 // emit, m top-level actions from an alphabet of 8, emit, emit. The nested actions are a stream of n digits from an alphabet of 10 that the slot
 // invocations consume in execution order: an invocation performs actions until it reads 0 (stop) or the stream is exhausted.
-// mode "exhMN": every one of the 2 * 8^M * 10^N programs (case index = mixed-radix number), e.g. exh23, exh34.
+// mode "exhMN": every one of the 2 * 8^M * 10^N programs (case index = mixed-radix number), e.g. exh23, exh34, on the 0-argument signal;
+// mode "exhMNx": every one of those programs for every arity 0..8 (case index = program * 9 + arity).
 static int x_nested[8]; static int x_n = 0, x_pos = 0;
 static void scriptExh(const SlotCtx& sc) {
   while (x_pos < x_n) {
@@ -610,18 +737,20 @@ static void scriptExh(const SlotCtx& sc) {
     }
   }
 }
-static void exhaustivePrograms(int M, int N) {
+static void exhaustivePrograms(int M, int N, bool allArities) {
   long total = 2; for (int i = 0; i < M; ++i) total *= 8; for (int i = 0; i < N; ++i) total *= 10;
+  if (allArities) total *= NAR;
   long from = opts.cases < 0 ? 0 : opts.start, to = opts.cases < 0 ? total : opts.start + opts.cases; if (to > total) to = total;
   for (long idx = from; idx < to; ++idx) {
     if (!mine(idx)) continue;
     beginCase(idx);
     resetCase(); g.r.seed(opts.seed, 1202, (u64)idx);
     g.NE = 1; g.NL = 2; g.NS = 1; g.NW = 1;
-    long c = idx; int variant = (int)(c % 2); c /= 2;
+    long c = idx; g.fixedAr = 0; if (allArities) { g.fixedAr = (int)(c % NAR); c /= NAR; }
+    int variant = (int)(c % 2); c /= 2;
     int topd[8]; for (int i = 0; i < M; ++i) { topd[i] = (int)(c % 8); c /= 8; }
     x_n = N; x_pos = 0; for (int i = 0; i < N; ++i) { x_nested[i] = (int)(c % 10); c /= 10; }
-    hist.addf("# C12 exhaustive program %ld of %ld: variant=%d top=", idx, total, variant); for (int i = 0; i < M; ++i) hist.addf("%d", topd[i]); hist.add(" nested="); for (int i = 0; i < N; ++i) hist.addf("%d", x_nested[i]); hist.add("\n");
+    hist.addf("# C12 exhaustive program %ld of %ld: arity=%d variant=%d top=", idx, total, g.fixedAr, variant); for (int i = 0; i < M; ++i) hist.addf("%d", topd[i]); hist.add(" nested="); for (int i = 0; i < N; ++i) hist.addf("%d", x_nested[i]); hist.add("\n");
     top("setup"); actCreateE(0); actCreateL(0); actCreateL(1);
     actConnect(g.em[0], 0, g.li[0], 0); if (variant) actConnect(g.em[0], 0, g.li[0], 0); actConnect(g.em[0], 0, g.li[1], 0);
     quiescentCheck();
@@ -644,7 +773,7 @@ static void exhaustivePrograms(int M, int N) {
     bool nontrivial = g.invocations >= 2 && g.nestedActions >= 1;
     if (idx % 100003 == 4711) sample("%.1500s", hist.c());
     endCase(g.fp, nontrivial);
-    cnt("exhaustive_programs");
+    cnt("exhaustive_programs"); if (allArities) cnt("exhaustive_programs_all_arities");
   }
   cnt("records_compared_by_walks", g_recordsCompared); g_recordsCompared = 0;
 }
@@ -655,9 +784,9 @@ static void scriptDcd(const SlotCtx& sc) { if (s_step++ == 0) { actDisconnect(sc
 static void scriptDcDelete(const SlotCtx& sc) { if (s_step++ == 0) { actDisconnect(sc.e, sc.sig, sc.l, sc.which); actConnect(sc.e, sc.sig, sc.l, sc.which); actDestroyL(sc.l, true); } }
 static void scriptDupDd(const SlotCtx& sc) { if (s_step++ == 0) { actDisconnect(sc.e, sc.sig, sc.l, sc.which); actDisconnect(sc.e, sc.sig, sc.l, sc.which); } }
 
-static void scenario(int which) {
-  resetCase(); g.NE = 1; g.NL = 2; s_step = 0;
-  hist.addf("# C12 scripted scenario %d\n", which);
+static void scenario(int which, int arity) {
+  resetCase(); g.NE = 1; g.NL = 2; s_step = 0; g.fixedAr = arity;
+  hist.addf("# C12 scripted scenario %d, arity %d\n", which, arity);
   top("setup"); actCreateE(0); actCreateL(0); actCreateL(1);
   actConnect(g.em[0], 0, g.li[0], 0);
   if (which == 2) actConnect(g.em[0], 0, g.li[0], 0);
@@ -675,27 +804,32 @@ static void scenario(int which) {
 
 static int probe(const char* key) {
   beginCase(-1);
-  if (!strcmp(key, KEY_DISC)) { scenario(0); scenario(2); return 0; }
-  if (!strcmp(key, KEY_LDESTROY)) { scenario(1); return 0; }
+  if (!strcmp(key, KEY_DISC)) { for (int k = 0; k < NAR; ++k) { scenario(0, k); scenario(2, k); } return 0; }
+  if (!strcmp(key, KEY_LDESTROY)) { for (int k = 0; k < NAR; ++k) scenario(1, k); return 0; }
   harnessBug("unknown probe %s", key);
 }
 
 int main(int argc, char** argv) {
   init(argc, argv, "h_callback");
+  checkKeysDistinct();
   if (opts.probe) { int rc = probe(opts.probe); finish(); return rc; }
   if (!strcmp(opts.mode, "programs")) {
-    // the three scripted scenarios are part of every shard's workload (cheap), unless their trigger is a listed finding
+    // the three scripted scenarios (each for every arity) are part of every shard's workload (cheap), unless their trigger is a listed finding
     // (replay of a failing scripted scenario: --start -1 --cases 1)
     if ((opts.start == 0 && opts.cases != 1) || opts.start == -1) {
       beginCase(-1);
-      if (!excluded(KEY_DISC)) { scenario(0); scenario(2); }
-      if (!excluded(KEY_LDESTROY)) scenario(1);
+      for (int k = 0; k < NAR; ++k) {
+        if (!excluded(KEY_DISC)) { scenario(0, k); scenario(2, k); }
+        if (!excluded(KEY_LDESTROY)) scenario(1, k);
+      }
       endCase(1, true);
     }
     if (opts.start >= 0) randomPrograms();
   }
-  else if (!strncmp(opts.mode, "exh", 3) && opts.mode[3] >= '1' && opts.mode[3] <= '4' && opts.mode[4] >= '1' && opts.mode[4] <= '6' && !opts.mode[5]) exhaustivePrograms(opts.mode[3] - '0', opts.mode[4] - '0');
+  else if (!strncmp(opts.mode, "exh", 3) && opts.mode[3] >= '1' && opts.mode[3] <= '4' && opts.mode[4] >= '1' && opts.mode[4] <= '6' && (!opts.mode[5] || (opts.mode[5] == 'x' && !opts.mode[6])))
+    exhaustivePrograms(opts.mode[3] - '0', opts.mode[4] - '0', opts.mode[5] == 'x');
   else harnessBug("unknown mode %s", opts.mode);
+  flushArityStats();
   leakCheck("Callback/leak");
   finish();
   return 0;
